@@ -26,7 +26,8 @@ RULE = (
     "once all runnable tasks are blocked; senders await the event directly or create the coroutine first and await it later; every gate order of the small configurations (2 tasks x 1 event, with deferred await / nested send; more in thorough) is enumerated, larger ones are drawn. History invariants: "
     "(a) begin/end markers of different events never interleave; (b) the multiset of processed events equals the multiset sent (incl. nested); "
     "(c) each sender's events are processed in the order it sent them; (d) when all senders have returned nothing is left unprocessed and the state "
-    "is the start state advanced by the number of events. non-trivial = a schedule in which an event was processed by another thread/task than its "
+    "is the start state advanced by the number of events. Refusal mode (asyncio, round 6): 1-2 sends are an event without any transition on a strict machine - TransitionNotAllowed reaches "
+    "whoever drains, the processed events are a sub-multiset of the sent ones, and one more event sent after all senders returned must be the only thing processed. non-trivial = a schedule in which an event was processed by another thread/task than its "
     "sender (the sender enqueued while another one held the processing section)"
 )
 ASSUMPTIONS = [
